@@ -278,9 +278,12 @@ def operand : Expr → Expr
 
 /-- Is `s` one of the names `DummyGensym` can produce (`tmp_1001`, `tmp_1002`, …)? -/
 def isTempName (s : String) : Bool :=
-  match (s.drop 4).toNat? with
-  | some m => 1001 ≤ m && s == tmpName (m - 1001)
-  | none => false
+  match s.toList with
+  | 't' :: 'm' :: 'p' :: '_' :: rest =>
+      (match (String.ofList rest).toNat? with
+       | some m => 1001 ≤ m && s == tmpName (m - 1001)
+       | none => false)
+  | _ => false
 
 /-- Overtakings among the ensured (`ens`) or merely visited children `(field, child)` of one node. -/
 def pairHaz (cfg : Config) (pk : String) (ens : Bool) (ki : String × Expr) : List (String × Expr) → List String
@@ -422,5 +425,139 @@ def hazards (cfg : Config) (s : Stmt) : List String :=
 
 /-- The hypothesis of `C18_sem_partial`. -/
 def NoHazard (cfg : Config) (s : Stmt) : Prop := hazards cfg s = []
+
+end Malt.Anf
+
+namespace Malt.Anf
+open Malt.Py
+
+/-! ### Temporaries and A-normal form of statements -/
+
+/-- The name assigned by a statement of the form `tmp_N = …`. -/
+def tmpTarget : Stmt → List String
+  | .assign _ [.name _ s .store] _ => if isTempName s then [s] else []
+  | _ => []
+
+mutual
+/-- All assignments `tmp_N = …` of a statement, in program order (blocks included). -/
+def tmpTargetsS : Stmt → List String
+  | .assign i ts v => tmpTarget (.assign i ts v)
+  | .functionDef _ _ _ b _ _ _ => tmpTargetsSs b
+  | .classDef _ _ _ _ b _ => tmpTargetsSs b
+  | .for_ _ _ _ b e _ _ => tmpTargetsSs b ++ tmpTargetsSs e
+  | .while_ _ _ b e => tmpTargetsSs b ++ tmpTargetsSs e
+  | .if_ _ _ b e => tmpTargetsSs b ++ tmpTargetsSs e
+  | .with_ _ _ b _ => tmpTargetsSs b
+  | .try_ _ b hs e f => tmpTargetsSs b ++ tmpTargetsSs hs ++ tmpTargetsSs e ++ tmpTargetsSs f
+  | .handler _ _ _ b => tmpTargetsSs b
+  | _ => []
+def tmpTargetsSs : List Stmt → List String
+  | [] => []
+  | s :: ss => tmpTargetsS s ++ tmpTargetsSs ss
+end
+
+/-- A statement created by `_do_transform_node`: `tmp_(1001+k) = copy of x` with `x` in A-normal form. -/
+def Gen (cfg : Config) (t : Stmt) : Prop := ∃ k x, t = tmpAssign k x ∧ quiet cfg x = true
+
+mutual
+/-- The statement is in A-normal form for the configuration: every expression the transformer visits is
+`quiet` (it would not be touched again) and every position it inspects is `okChild`.  Generated assignments
+hold the (context-adjusted) copy of such an expression. -/
+def AnfS (cfg : Config) : Stmt → Prop
+  | .ret _ v => quiets cfg v = true ∧ okChildren cfg "Return" "value" v = true
+  | .raise _ e c =>
+      quiets cfg e = true ∧ quiets cfg c = true ∧ okChildren cfg "Raise" "exc" e = true ∧ okChildren cfg "Raise" "cause" c = true
+  | .delete _ ts => quiets cfg ts = true
+  | .assign i ts v => (quiets cfg ts = true ∧ quiet cfg v = true) ∨ Gen cfg (.assign i ts v)
+  | .augAssign _ t _ v => quiet cfg t = true ∧ quiet cfg v = true
+  | .annAssign _ t a v _ => quiet cfg t = true ∧ quiet cfg a = true ∧ quiets cfg v = true
+  | .expr _ v => quiet cfg v = true
+  | .if_ _ t b e => quiet cfg t = true ∧ okChild cfg "If" "test" t = true ∧ AnfSs cfg b ∧ AnfSs cfg e
+  | .for_ _ tg it b e _ _ =>
+      quiet cfg tg = true ∧ quiet cfg it = true ∧ okChild cfg "For" "iter" it = true ∧ AnfSs cfg b ∧ AnfSs cfg e
+  | .while_ _ t b e => quiet cfg t = true ∧ okChild cfg "While" "test" t = true ∧ AnfSs cfg b ∧ AnfSs cfg e
+  | .with_ _ items b _ => quiets cfg items = true ∧ okChildren cfg "With" "items" items = true ∧ AnfSs cfg b
+  | .assert_ _ t m =>
+      quiet cfg t = true ∧ quiets cfg m = true ∧ okChild cfg "Assert" "test" t = true ∧ okChildren cfg "Assert" "msg" m = true
+  | .functionDef _ _ as b ds rs _ => quiet cfg as = true ∧ AnfSs cfg b ∧ quiets cfg ds = true ∧ quiets cfg rs = true
+  | .classDef _ _ bs ks b ds => quiets cfg bs = true ∧ quiets cfg ks = true ∧ AnfSs cfg b ∧ quiets cfg ds = true
+  | .try_ _ b hs e f => AnfSs cfg b ∧ AnfSs cfg hs ∧ AnfSs cfg e ∧ AnfSs cfg f
+  | .handler _ ty _ b => quiets cfg ty = true ∧ AnfSs cfg b
+  | _ => True
+def AnfSs (cfg : Config) : List Stmt → Prop
+  | [] => True
+  | s :: ss => AnfS cfg s ∧ AnfSs cfg ss
+end
+
+/-- No identifier of the program has the form of a temporary. -/
+def NoTempNames (s : Stmt) : Prop := ∀ x ∈ namesS s, isTempName x = false
+
+end Malt.Anf
+
+namespace Malt.Anf
+open Malt.Py
+
+/-! ### Which expressions the transformer accepts
+Strict constructs are accepted when their children are; the lazy constructs (`and`/`or`, `if`-expression,
+`lambda`, `await`, `yield from`, f-strings) only when visiting them creates no statement at all (`quiet`);
+comprehensions, chained comparisons and node kinds outside the model never. -/
+mutual
+def acceptsE (cfg : Config) : Expr → Bool
+  | .name .. => true
+  | .const .. => true
+  | .noneMarker => true
+  | .attr _ v _ _ => acceptsE cfg v
+  | .subscript _ v s _ => acceptsE cfg v && acceptsE cfg s
+  | .call _ f as ks => acceptsE cfg f && acceptsEs cfg as && acceptsEs cfg ks
+  | .keyword _ _ _ v => acceptsE cfg v
+  | .boolop i a vs => quiet cfg (.boolop i a vs)
+  | .unary _ _ e => acceptsE cfg e
+  | .binop _ _ l r => acceptsE cfg l && acceptsE cfg r
+  | .compare _ l ops rs => !(ops.length > 1) && acceptsE cfg l && acceptsEs cfg rs
+  | .ifexp i t b e => quiet cfg (.ifexp i t b e)
+  | .lambda i as b => quiet cfg (.lambda i as b)
+  | .seq _ _ es _ => acceptsEs cfg es
+  | .starred _ v _ => acceptsE cfg v
+  | .namedexpr _ t v => acceptsE cfg t && acceptsE cfg v
+  | .comp .. => false
+  | .comprehension _ t it ifs _ => acceptsE cfg t && acceptsE cfg it && acceptsEs cfg ifs
+  | .arguments _ po ar va ko kd kw df =>
+      acceptsEs cfg po && acceptsEs cfg ar && acceptsEs cfg va && acceptsEs cfg ko && acceptsEs cfg kd
+        && acceptsEs cfg kw && acceptsEs cfg df
+  | .arg _ _ an => acceptsEs cfg an
+  | .withitem _ ce ov => acceptsE cfg ce && acceptsEs cfg ov
+  | .other i k ats ks =>
+      if k == "Dict" || k == "Slice" || k == "Yield" then acceptsEs cfg ks
+      else quiet cfg (.other i k ats ks)
+def acceptsEs (cfg : Config) : List Expr → Bool
+  | [] => true
+  | e :: es => acceptsE cfg e && acceptsEs cfg es
+end
+
+end Malt.Anf
+
+namespace Malt.Anf
+open Malt.Py
+
+/-! ### The fragment for which semantic preservation is proved (`C18_sem_partial`)
+Expressions: variables, constants, attribute / item loads, calls with positional arguments, unary / binary
+operators, single comparisons, tuple / list / set displays without `*`, and `x := e`. -/
+mutual
+def fragE : Expr → Bool
+  | .name .. => true
+  | .const .. => true
+  | .attr _ v _ _ => fragE v
+  | .subscript _ v s _ => fragE v && fragE s
+  | .call _ f as ks => fragE f && fragEs as && ks.isEmpty
+  | .unary _ _ e => fragE e
+  | .binop _ _ l r => fragE l && fragE r
+  | .compare _ l ops rs => fragE l && fragEs rs && ops.length == 1 && rs.length == 1
+  | .seq _ _ es _ => fragEs es
+  | .namedexpr _ (.name ..) v => fragE v
+  | _ => false
+def fragEs : List Expr → Bool
+  | [] => true
+  | e :: es => fragE e && fragEs es
+end
 
 end Malt.Anf
